@@ -7,6 +7,7 @@ import (
 	"bytes"
 	"encoding/json"
 	"fmt"
+	"strings"
 	"sync"
 	"testing"
 
@@ -48,14 +49,18 @@ func genInput(t *rapid.T, k stdh.Kind) ([]byte, string, [][2]uint64) {
 		switch pkg {
 		case "deflate", "zlib", "gzip", "lzw":
 			// mostly small payloads (many calls per byte); one in four may exceed the 32 KiB history window
-			pmax := 5000
+			pmax, big := 5000, ""
 			if rapid.IntRange(0, 3).Draw(t, "bigpayload") == 0 {
-				pmax = 90000
+				pmax, big = 90000, "+big"
 			}
 			for i := 0; i < 8; i++ {
-				e := stdgen.Compressed(t, stdgen.Payload(t, "pl", pmax), "enc")
+				pl := stdgen.Payload(t, "pl", pmax)
+				if big != "" && i == 0 && rapid.Bool().Draw(t, "book") {
+					pl = stdgen.Book(t, "book", 33000, pmax)
+				}
+				e := stdgen.Compressed(t, pl, "enc")
 				if e.Pkg == pkg {
-					base, desc, quirks = e.Data, "encoded:"+e.Pkg, e.Quirks
+					base, desc, quirks = e.Data, "encoded:"+e.Pkg+big, e.Quirks
 					break
 				}
 			}
@@ -106,6 +111,11 @@ func genCase(t *rapid.T, env *stdrun.Env) Case {
 	c := Case{Kind: k.Name, Payload: payload, Source: desc}
 	c.Plan = stdgen.DrawPlan(t, "plan", len(payload))
 	c.Plan.Closed = true
+	if strings.Contains(desc, "+big") && k.Iface == stdh.IOT && rapid.Bool().Draw(t, "ringplan") {
+		// more than a history window of output: flushed destination windows that divide (or nearly divide) 32 KiB
+		c.Plan.DstMode = 2
+		c.Plan.DstStep = uint32(rapid.SampledFrom([]int{512, 1024, 4096, 8192, 16384, 32768, 4095, 16385}).Draw(t, "ringstep"))
+	}
 	if c.Plan.Trivial() {
 		c.Plan.SrcMode, c.Plan.SrcChunk = 1, 1
 		if len(payload) > 3000 {
